@@ -92,6 +92,7 @@ class Simulator:
     gc_every = 50                 # full garbage collection between runs, every so many runs
     prepared_state = None          # JSON-able; handed to the fresh interpreter of the self-test
     expected_probes: List[str] = []
+    max_skipped_fraction = 0.02   # more runs than this in which nothing was judged: exit 2 instead of a vacuous pass
 
     def adopt(self, state) -> None:   # fresh interpreter re-uses what prepare() built
         pass
@@ -596,6 +597,15 @@ def _search(sim: Simulator, tier: str, seed: int, cfg: Dict[str, Any], workers: 
     zero = [k for k in getattr(sim, "expected_probes", []) if not stats.get(k)]
     if zero:
         print(f"note: reach probes stuck at zero: {zero}", flush=True)
+    skipped = {k: v for k, v in stats.items() if k.startswith("skipped:")}
+    if skipped:
+        print(f"note: runs skipped by the simulator (nothing judged in them): {skipped}", flush=True)
+    if exit_code == 0 and n and sum(skipped.values()) > sim.max_skipped_fraction * n:
+        # a pass in which the simulator judged (almost) nothing is no pass: the workload no longer reaches
+        # the code the property is about - reported as a harness outcome, not as a verdict
+        print(f"HARNESS: {sum(skipped.values())} of {n} runs were skipped (limit "
+              f"{sim.max_skipped_fraction:.0%}): the check would pass vacuously", flush=True)
+        return 2
     return exit_code
 
 
